@@ -315,6 +315,17 @@ func (s *Sim) buildTargetedReplacement() *MTx {
 		p.Outs = append(p.Outs, &wire.TxOut{Value: val, PkScript: w.script(KP2PKH, c.Intn(len(w.Keys), "repl-key"))})
 	}
 	t := w.makeTx(p)
+	if c.Bool(350, "repl-exact") {
+		// the absolute-fee rule exactly at its boundary: evicted fees plus
+		// the relay fee for the replacement's own virtual size, or 1 less
+		want := sum + vsize(t.Msg)*int64(s.n.cfg.Pool.MinRelayTxFee)/1000 - int64(c.Intn(2, "repl-exact-off"))
+		if d := fee - want; want >= 0 && p.Outs[0].Value+d > 0 {
+			p.Outs[0].Value += d
+			fee = want
+			t = w.makeTx(p)
+			s.r.Probe("targeted-replacement-at-fee-boundary")
+		}
+	}
 	t.Fee = fee
 	w.addTx(t)
 	s.r.Probe("targeted-replacement-built")
@@ -826,4 +837,74 @@ func (s *Sim) evictionLimitScenario() {
 	s.r.Probe(fmt.Sprintf("eviction-limit-scenario:%d", total))
 	s.Submit(t, 0)
 	s.CheckPool("fan-replaced")
+}
+
+// disconnectScenario: a block confirms a parent P the pool would refuse on
+// its own (a 61-byte transaction, below the pool's minimum size) together
+// with a child T of P; the pool then admits D on top of T; a competing branch
+// overtakes and the block is disconnected.  P cannot come back, T comes back
+// with a missing parent, so D must leave the pool as well.
+func (s *Sim) disconnectScenario() {
+	c := s.r.C
+	w := s.w
+	tip := s.n.Tip()
+	pool := s.n.Pool
+	next := tip.Height + 1
+	var op wire.OutPoint
+	var rec *utxoRec
+	for _, o := range w.UniOrder {
+		r, ok := tip.View[o]
+		if !ok || (r.Kind != KTrue && r.Kind != KP2SHTrue) || r.Value < 1_000_000 || pool.CheckSpend(o) != nil {
+			continue
+		}
+		if r.Coinbase && next-r.Height < w.Net.Maturity {
+			continue
+		}
+		op, rec = o, r
+		break
+	}
+	if rec == nil {
+		return
+	}
+	// P: one input, one OP_TRUE output (61 bytes with an empty signature script)
+	pp := &txPlan{Version: 1, Ins: []planIn{{Op: op, Rec: rec, Seq: 0xffffffff}}, Outs: []*wire.TxOut{{Value: rec.Value - 1000, PkScript: w.script(KTrue, 0)}}}
+	P := w.makeTx(pp)
+	P.Fee = 1000
+	w.addTx(P)
+	prec := &utxoRec{Value: rec.Value - 1000, PkScript: w.script(KTrue, 0), Height: next, Kind: KTrue}
+	tp := &txPlan{Version: 1, Ins: []planIn{{Op: wire.OutPoint{Hash: P.Hash}, Rec: prec, Seq: 0xffffffff}},
+		Outs: []*wire.TxOut{{Value: (prec.Value - 2000) / 2, PkScript: w.script(KP2PKH, 0)}, {Value: (prec.Value - 2000) / 2, PkScript: w.script(KP2PKH, 1%len(w.Keys))}}}
+	T := w.makeTx(tp)
+	T.Fee = prec.Value - 2*((prec.Value-2000)/2)
+	w.addTx(T)
+	x := w.Build(tip, BlockOpts{Txs: []*MTx{P, T}, TsAbs: s.adjNow()})
+	s.r.Event("mine", "%v on %v with a tiny parent and its child (disconnect scenario)", x, tip)
+	s.ensureClock(x)
+	s.Deliver(x)
+	s.CheckState("connect")
+	if s.n.Tip() != x {
+		return
+	}
+	// D (and sometimes a grandchild) on top of T, in the pool
+	trec := &utxoRec{Value: T.Msg.TxOut[0].Value, PkScript: T.Msg.TxOut[0].PkScript, Height: x.Height, Kind: KP2PKH, Key: 0}
+	dp := &txPlan{Version: 2, Ins: []planIn{{Op: wire.OutPoint{Hash: T.Hash}, Rec: trec, Seq: 0xfffffffd}},
+		Outs: []*wire.TxOut{{Value: trec.Value - 5000, PkScript: w.script(KP2PKH, 0)}}}
+	D := w.makeTx(dp)
+	D.Fee = 5000
+	w.addTx(D)
+	s.Submit(D, 0)
+	s.CheckPool("submit")
+	// the competing branch: two blocks on x's parent
+	parent := tip
+	n := 2 + c.Intn(2, "disc-branch")
+	for i := 0; i < n; i++ {
+		y := w.Build(parent, BlockOpts{NTx: c.Intn(2, "ntx")})
+		s.r.Event("mine", "%v on %v (branch that disconnects the scenario block)", y, parent)
+		s.ensureClock(y)
+		s.Deliver(y)
+		s.CheckState("deliver")
+		s.CheckPool("reorg")
+		parent = y
+	}
+	s.r.Probe("disconnect-scenario")
 }
